@@ -37,7 +37,7 @@ RULE = (
 )
 CLASSES = [
     "crash", "torn", "fault_EIO", "fault_ENOSPC", "fault_EACCES", "fault_EXDEV", "fault_EROFS", "double_fault",
-    "between_two_renames", "rollback_exercised", "retry_after_handled_error", "retry_returned_normally", "collision_dest", "threads_off", "persistent_cache",
+    "between_two_renames", "rollback_exercised", "retry_after_handled_error", "retry_returned_normally", "collision_dest", "dest_is_remains_of_interrupted_job", "threads_off", "persistent_cache",
     "op_init_fresh", "op_init_existing", "op_init_force", "op_rekey_set", "op_rekey_assign", "op_update_statepoint",
     "op_move", "op_clone", "op_remove", "op_clear", "op_reset",
 ]
@@ -69,7 +69,7 @@ def cases(draw):
         "files": files,
         "doc": draw(st.sampled_from([None, {"x": 1}, {"x": [1, 2], "y": {"z": "s"}}])),
         "bystanders": draw(st.integers(1, 2)),
-        "dest": draw(st.sampled_from(["fresh", "fresh", "collide", "same"])),
+        "dest": draw(st.sampled_from(["fresh", "fresh", "collide", "same", "remains"])),
         "threads": draw(st.sampled_from([True, True, False])),
         "cache": draw(st.sampled_from([False, False, True])),
         "double": draw(st.lists(st.tuples(st.integers(0, 30), st.integers(1, 12), st.sampled_from(sorted(ERRNOS)), st.sampled_from(sorted(ERRNOS))), max_size=4)),
@@ -114,6 +114,14 @@ def build(ctx, case):
             d = p0.open_job(new_sp_of(case)).init()
             fsutil.write_file(d.fn("dest.txt"), b"destination payload")
             info["dest"] = ("p0", d.id)
+        elif case["dest"] == "remains":
+            # what an earlier, interrupted operation left under the destination id: data files, no state point
+            # file (check() reports it). It is somebody's data: the operation must refuse and leave it alone.
+            rd = os.path.join(p0.workspace, info["new_id"])
+            fsutil.write_file(os.path.join(rd, "dest.txt"), b"remains of an interrupted job")
+            fsutil.write_file(os.path.join(rd, "sub", "more.txt"), b"more")
+            info["dest"] = ("p0", info["new_id"])
+            info["remains"] = True
     if op in ("move", "clone"):
         info["new_id"] = info["old_id"]
         if case["dest"] == "collide":
@@ -311,6 +319,8 @@ def run_case(case, ctx):
     template = info["root"]
     if info["dest"]:
         cl.add("collision_dest")
+    if info.get("remains"):
+        cl.add("dest_is_remains_of_interrupted_job")
     if case.get("cache"):
         cl.add("persistent_cache")
     pre_snap = {pn: fsutil.snapshot(os.path.join(template, pn, "workspace")) for pn in ("p0", "p1")}
@@ -333,7 +343,8 @@ def run_case(case, ctx):
         mms.append(Mismatch("refused_op_changed_disk", f"unfaulted {op} refused with {expected_exc} but the disk changed: p0 {fsutil.fmt_diff(fsutil.diff(pre_snap['p0'], succ_snap['p0']))}; p1 {fsutil.fmt_diff(fsutil.diff(pre_snap['p1'], succ_snap['p1']))}"))
     if op != "init_force" or ref_exc is None:
         v = examine(ref_root)
-        bad = {pn: sorted(v[pn]["flagged"]) for pn in ("p0", "p1") if v[pn]["flagged"]}
+        known_bad = {info["dest"][1]} if info.get("remains") else set()
+        bad = {pn: sorted(set(v[pn]["flagged"]) - known_bad) for pn in ("p0", "p1") if v[pn]["flagged"] and set(v[pn]["flagged"]) - known_bad}
         if bad:
             mms.append(Mismatch("unfaulted_op_corrupts", f"unfaulted {op} left jobs that check() reports: {bad}"))
     shutil.rmtree(ref_root, ignore_errors=True)
@@ -446,6 +457,8 @@ def constructed():
         for dest in (["fresh", "collide"] if op in ("rekey_set", "rekey_assign", "update_statepoint", "move", "clone") else ["fresh"]):
             out.append(dict(base, op=op, dest=dest))
     out.append(dict(base, op="rekey_set", dest="same"))
+    out.append(dict(base, op="rekey_set", dest="remains"))
+    out.append(dict(base, op="update_statepoint", dest="remains"))
     out.append(dict(base, op="rekey_set", dest="fresh", cache=True))
     out.append(dict(base, op="move", dest="fresh", cache=True))
     out.append(dict(base, op="rekey_assign", dest="fresh", threads=False))
